@@ -71,8 +71,11 @@
 (***************************************************************************)
 EXTENDS Naturals, Sequences, FiniteSets, TLC
 
-CONSTANTS Runs,     \* identities of the concurrent backtests
-          Params    \* Params[b] = [n, recs, acts, fatalAt]
+CONSTANTS Runs,       \* identities of the concurrent backtests
+          Params,     \* Params[b] = [n, recs, acts, fatalAt]
+          OrderKinds  \* account events an accepted order produces: a subset of
+                      \* {"order", "balance", "trade"} (the mock exchange produces all three -
+                      \* smaller sets keep the exhaustive models small)
 
 VARIABLES run       \* run[b] : the record described above
 
@@ -87,7 +90,6 @@ Dataset(p)       == [i \in 1..p.n |-> DataItem(p, i)]
 ShutdownItem     == Item("sd", 0, "-")
 Acct(k, kind)    == Item("a", k, kind)
 SnapshotItem     == Acct(0, "snapshot")
-OrderKinds       == {"order", "balance", "trade"}
 
 NoSummary == [made |-> FALSE, consumed |-> 0, trades |-> <<>>, balances |-> 0]
 
@@ -101,7 +103,7 @@ InitRun(p) == [p |-> p, cursor |-> 0, feed |-> <<>>, consumed |-> <<>>, sent |->
                exch |-> {SnapshotItem}, applied |-> <<>>, sdSent |-> FALSE,
                phase |-> "run", fatal |-> FALSE, summary |-> NoSummary]
 
-IsPrefix(s, t) == Len(s) <= Len(t) /\ \A i \in 1..Len(s) : s[i] = t[i]
+IsPrefix(s, t) == Len(s) <= Len(t) /\ s = SubSeq(t, 1, Len(s))
 
 (***************************************************************************)
 (* Single-run transition functions.                                        *)
@@ -194,21 +196,27 @@ TypeOK1(r) ==
 
 \* PrefixAlways: what the engine has processed is always a prefix of the dataset -
 \* in order, nothing skipped, nothing twice
-PrefixAlways1(r) == IsPrefix(r.consumed, Dataset(r.p))
+PrefixAlways1(r) == /\ Len(r.consumed) <= r.p.n
+                    /\ \A j \in 1..Len(r.consumed) : r.consumed[j] = DataItem(r.p, j)   \* = IsPrefix(consumed, Dataset)
 
 \* CompleteInOrder: an engine that stopped without a fatal error has processed the whole dataset
 CompleteInOrder1(r) == (r.phase \in {"stopped", "done"} /\ ~r.fatal) => r.consumed = Dataset(r.p)
 
-\* the feed holds, after what was consumed, exactly the items forwarded so far, in order;
+\* behind what was consumed the feed holds exactly the items forwarded so far, in order
+\* (with PrefixAlways: consumed \o MarketItems(feed) = SubSeq(Dataset, 1, cursor));
 \* Shutdown is behind every market item
 FeedInOrder1(r) ==
-    /\ r.phase = "run" => r.consumed \o MarketItems(r.feed) = SubSeq(Dataset(r.p), 1, r.cursor)
+    /\ r.phase = "run" =>
+          \E mi \in {MarketItems(r.feed)} :
+             /\ Len(r.consumed) + Len(mi) = r.cursor
+             /\ \A j \in 1..Len(mi) : mi[j] = DataItem(r.p, Len(r.consumed) + j)
     /\ \A j \in 1..Len(r.feed) : r.feed[j].t = "sd" => /\ ForwarderDone(r)
                                                         /\ \A m \in j..Len(r.feed) : r.feed[m].t \notin {"m", "r"}
 
 \* orders are sent exactly on the consumed events the strategy acts on (the fatal one excepted)
-SentOK1(r) == r.sent = [j \in 1..Len(SelectSeq(r.consumed, LAMBDA x : x.i \in r.p.acts \ r.p.fatalAt))
-                          |-> SelectSeq(r.consumed, LAMBDA x : x.i \in r.p.acts \ r.p.fatalAt)[j].i]
+IdsOf(s)   == [j \in 1..Len(s) |-> s[j].i]
+SentOK1(r) == \E acted \in {SelectSeq(r.consumed, LAMBDA x : x.i \in r.p.acts \ r.p.fatalAt)} :
+                 r.sent = IdsOf(acted)
 
 \* account events concern this run's own orders only, each at most once, trade after balance
 AppliedOK1(r) ==
@@ -241,12 +249,13 @@ Isolation == [][\E b \in Runs : /\ Step1(run[b], run'[b])
                                 /\ run'[b].p = run[b].p
                                 /\ \A c \in Runs \ {b} : run'[c] = run[c]]_vars
 
-\* consumed / sent / applied only grow; phases only advance
-Monotone == [][\A b \in Runs : /\ IsPrefix(run[b].consumed, run'[b].consumed)
-                               /\ IsPrefix(run[b].sent, run'[b].sent)
-                               /\ IsPrefix(run[b].applied, run'[b].applied)
-                               /\ run[b].phase = "done" => run'[b] = run[b]
-                               /\ run[b].phase = "stopped" => run'[b].phase # "run"]_vars
+\* consumed / sent / applied only grow; phases only advance; a finished run never changes
+Mono1(r, r2) == /\ IsPrefix(r.consumed, r2.consumed)
+                /\ IsPrefix(r.sent, r2.sent)
+                /\ IsPrefix(r.applied, r2.applied)
+                /\ r.phase = "done" => r2 = r
+                /\ r.phase = "stopped" => r2.phase # "run"
+Monotone == [][\A b \in Runs : Mono1(run[b], run'[b])]_vars
 
 \* under weak fairness of every run's tasks, every backtest finishes
 Finishes == \A b \in Runs : <>(run[b].phase = "done")
